@@ -32,6 +32,21 @@ def run(F, rep):
     cmds = [f for f in F.funcs.values() if f.crate == "ragc" and f.kind == "fn" and re.match(r"ragc::\w+$", f.key)]
     rep.floor("C17-ANCHOR", len(cmds), 8, "CLI command functions in the ragc binary")
 
+    # ------------------------------------------------------------ R7: extracting a sample leaves the handle as it was
+    # getset writes the requested samples one after the other on ONE reader handle; the output is the concatenation of
+    # single-sample outputs only if writing a sample changes nothing a later sample (possibly the same one) depends on.
+    # That is C08's effect analysis (queries write only caches; load-once tables only grow; the loader is idempotent).
+    from rules import c08
+    sub = type(rep)(rep.pid, rep.tier)
+    sub.cfg = getattr(rep, "cfg", "dev")
+    c08.run(F, sub)
+    n7 = 0
+    for o in sub.obligations:
+        if o["rule"] in ("C08-H8", "C08-H2") or (o["rule"] == "C08-H1" and re.search(r"query (write_sample_to|write_sample_fasta|get_sample|list_samples_with_prefix|get_samples_by_prefix) ", o["instance"])):
+            n7 += 1
+            rep.ob("C17-R7", o["instance"], o["ok"], detail=o["detail"], site=o["site"], how=o["how"], key=o["key"].replace(o["rule"], "C17-R7/" + o["rule"][4:]))
+    rep.floor("C17-R7", n7, 8, "reader-state clauses shared with C08 (sample writers, contig tables, loader)")
+
     # ------------------------------------------------------------ R1
     nloopcalls = 0
     for f in cmds:
